@@ -30,6 +30,7 @@ def run(ctx):
     scen += [charfam.concretize(s, rng) for s in uni[: (100 if quick else 1500)]]
     scen += charfam.seeded_small(ctx, rng, 40 if quick else 400)
     scen += charfam.directed_small_trees()
+    scen += charfam.directed_wide(not quick)
     files, cells, leaves = charfam.run_scenarios(ctx, scen, "c03", shards=vlib.NCPU)
     sf, sc_, sl = charfam.run_sequences(ctx, charfam.collision_sequences(), "c03")
     files, cells, leaves = files + sf, cells + sc_, leaves + sl
